@@ -362,3 +362,12 @@ PLAN["C20"]["units"] = PLAN["C20"]["units"] + ["hypercorn.middleware.proxy_fix:P
                                                "hypercorn.middleware.http_to_https:HTTPToHTTPSRedirectMiddleware.__init__"]
 # C20 "startup/shutdown complete only when every mount has completed": the counting rule of both send()
 PLAN["C20"]["units"] = PLAN["C20"]["units"] + ["hypercorn.middleware.dispatcher:AsyncioDispatcherMiddleware.send", "hypercorn.middleware.dispatcher:TrioDispatcherMiddleware.send"]
+# entry points and wrappers: the application gets the wrapper with the configured WSGI body limit,
+# the worker gets the caller's configuration and trigger; the worker-process trigger polls the
+# master's shutdown event
+_ENTRY = ["hypercorn.asyncio:serve", "hypercorn.trio:serve", UT + "wrap_app"]
+PLAN["C17"]["units"] = PLAN["C17"]["units"] + _ENTRY + ["hypercorn.app_wrappers:ASGIWrapper.__call__", "hypercorn.app_wrappers:ASGIWrapper.__init__", WW + "__init__"]
+PLAN["C15"]["units"] = PLAN["C15"]["units"] + _ENTRY[:2] + [UT + "check_multiprocess_shutdown_event"]
+PLAN["C15"]["trusted_base"] = PLAN["C15"]["trusted_base"]
+PLAN["C01"]["units"] = PLAN["C01"]["units"] + ["hypercorn.app_wrappers:ASGIWrapper.__call__"]
+PLAN["C05"]["units"] = PLAN["C05"]["units"] + ["hypercorn.app_wrappers:ASGIWrapper.__call__"]
